@@ -441,7 +441,7 @@ def gen_actor_case(rng, name, props, logger=False):
             if c < 0.12:
                 it["ops"].append({"op": "stop"})
             elif c < 0.22:
-                it["ops"].append({"op": "fail", "code": "f%d" % it["id"]})
+                it["ops"].append({"op": "fail", "code": rng.choice(["f%d" % it["id"], "f%d" % it["id"], "flit{{1}}"])})
             elif c < 0.45 and actors:
                 tgt = rng.choice(actors)
                 it["ops"].append({"op": "call", "aid": tgt, "item": meth_item(tgt, depth + 1)})
@@ -461,6 +461,11 @@ def gen_actor_case(rng, name, props, logger=False):
                 it["ops"].append(rng.choice([{"op": "ret", "rid": rid, "val": rid * 10},
                                              {"op": "retdrop", "rid": rid},
                                              {"op": "keepret", "rid": rid}]))
+            elif c < 0.84:
+                # a Ret made with ret_fail!: whatever becomes of it, this actor will be failed
+                rid = ids.next("rid")
+                it["ops"].append({"op": "mkret", "rid": rid, "kind": "retfail", "aid": aid})
+                rets.append(rid)
             elif c < 0.88 and fwds:
                 it["ops"].append({"op": "fwd", "fid": rng.choice(fwds), "val": it["id"]})
             else:
@@ -537,7 +542,7 @@ def gen_actor_case(rng, name, props, logger=False):
                 oid = rng.choice(list(owners))
                 if rng.random() < 0.35:
                     # kill!: queued, through an extra owner
-                    ops.append({"op": "dkill", "oid": oid, "code": "d%d" % ids.next("item")})
+                    ops.append({"op": "dkill", "oid": oid, "code": rng.choice(["d%d" % ids.next("item"), "lit{{0}}"])})
                 else:
                     ops.append({"op": "kill", "oid": oid, "code": "k%d" % oid})
             elif c < 0.76:
